@@ -24,6 +24,10 @@ PAYLOADS = {
     # directories below the root whose names repeat / end in the root's name
     "dir-nest": [(("top", "x"), 20000), (("live top", "top", "y"), P0 + 1),
                  (("d", "z"), 5)],
+    # a name containing a backslash next to the real path it would spell
+    # with the other separator
+    "dir-sep": [(("a\\b",), 20000), (("a", "b"), P0 + 1), (("d", "x"), 5),
+                (("a b",), 9), (("a", " b"), 11)],
     "dir-eq": [(("caf\u00e9.bin",), 20000), (("cafe\u0301.bin",), P0 + 1),
                (("d", "f01"), 5), (("d", "f1"), 7)],
 }
